@@ -160,7 +160,7 @@ _PROCESS_DEPENDENT = [
 ]
 
 
-SPECIAL_BLOCKS = ("doc", "spell", "deep", "settle", "loader", "overused", "boolexpr", "decofirst", "twostep", "renames", "dupfuncs")
+SPECIAL_BLOCKS = ("doc", "spell", "deep", "settle", "loader", "overused", "boolexpr", "decofirst", "twostep", "renames", "dupfuncs", "peel")
 
 
 def gen_module(rng: random.Random, process_dependent: bool = False, special: bool = False, force: Optional[str] = None) -> str:
@@ -203,6 +203,16 @@ def gen_module(rng: random.Random, process_dependent: bool = False, special: boo
             return text
         except (SyntaxError, ValueError):
             pass
+    if force == "peel" or (force is None and special and rng.random() < 0.04):
+        # a dependency chain that can only be taken apart from one end: the last import is unused; once it is
+        # gone the `if` that guarded it is pointless; once that is gone the import it tested is unused; ...
+        n = rng.randint(3, 8)
+        mods = [f"{rng.choice(['m', 'mod', 'dep'])}{i}" for i in range(n)]
+        attr = rng.choice(["f", "enabled", "HAVE_NEXT"])
+        lines = [f"import {mods[-1]}"]
+        for kk in range(n - 1, 0, -1):
+            lines.append(f"if {mods[kk]}.{attr}:\n    import {mods[kk - 1]}")
+        return "\n".join(lines) + "\n"
     if force == "dupfuncs" or (force is None and special and rng.random() < 0.06):
         # duplicate functions whose bodies call other duplicates: removing one pair renames uses (to a shorter
         # or longer name) on lines that lie in front of / inside the other pair
